@@ -1428,12 +1428,19 @@ impl<'t, 'c> Gen<'t, 'c> {
                 c.r#ref = Some(self.gen_ref());
             }
             self.cur.collateral = Some(c);
-            collateral.push(self.gen_utxo(200, None, true));
+            // what is handed to the block is what the transaction names, tokens or not (which UTxOs qualify is
+            // the selector's business, C03)
+            let pure = !self.t.chance(1, 3);
+            if !pure {
+                self.mark("collateral_utxo_with_tokens");
+            }
+            collateral.push(self.gen_utxo(200, None, pure));
             // a collateral query may be served by several UTxOs
             if self.t.chance(1, 3) {
                 self.mark("collateral_of_several_utxos");
                 for k in 0..1 + self.t.pick(3) {
-                    let u = self.gen_utxo(201 + k, None, true);
+                    let pure_k = self.t.chance(2, 3);
+                    let u = self.gen_utxo(201 + k, None, pure_k);
                     if !collateral.iter().any(|c: &GUtxo| c.txid == u.txid && c.index == u.index) {
                         collateral.push(u);
                     }
@@ -1583,11 +1590,23 @@ impl<'t, 'c> Gen<'t, 'c> {
 
         // directives
         if self.feat.withdrawals {
-            let n = self.t.weighted(&[5, 3, 1]);
+            let n = self.t.weighted(&[5, 3, 1, 1]);
             let mut used_parties = vec![];
             for _ in 0..n {
                 let p = self.t.pick(self.prog.parties.len());
                 if used_parties.contains(&p) {
+                    // a second block on the same account, one time in two: same amount, same redeemer (the
+                    // withdrawals map has one entry per account; the accounts behind it keep their numbers)
+                    if self.t.flag() {
+                        let twin = self.cur.cardano.iter().rev().find_map(|d| match d {
+                            GDirective::Withdrawal { from: GExpr::Party(q), .. } if *q == p => Some(d.clone()),
+                            _ => None,
+                        });
+                        if let Some(twin) = twin {
+                            self.mark("withdrawal_repeated");
+                            self.cur.cardano.push(twin);
+                        }
+                    }
                     continue;
                 }
                 used_parties.push(p);
